@@ -104,6 +104,32 @@ Theorem C13_fallback_violation : forall T ks r c, gc_fallback c = true ->
   (gb_judge T ks r c = 1 <-> gc_obs c = ObsBad).
 Proof. exact fallback_violation. Qed.
 
+(* scope check of the func bodies (a necessary condition for the generated file to compile): for
+   ANY tables passing the boolean sweep, under every option setting, whenever a call of a method
+   on the enclosing func's receiver or of a template-named function (Parse<T>) can be emitted,
+   the callee is emitted too (or promoted from the embedded GError).  Instantiated on every run
+   with the uses and tables regenerated from the current templates. *)
+Theorem C13_uses_declared_any_table : forall T ug ue us,
+  uses_sweep T ug ue us = true ->
+  (forall o u, In u ug -> use_possible (genum_env o) u = true ->
+               use_declared (tt_genum T) [] (genum_env o) u = true)
+  /\ (forall skip u, In u ue -> use_possible (gerror_env skip) u = true ->
+                     use_declared (tt_gerror T) (tt_promoted T) (gerror_env skip) u = true)
+  /\ (forall u, In u us -> use_possible (fun _ => false) u = true ->
+                use_declared (tt_gsort T) [] (fun _ => false) u = true).
+Proof. exact uses_declared_any_table. Qed.
+(* non-vacuity: a use under a flag whose callee sits under another flag is caught *)
+Example C13_example_scope :
+  uses_ok [mk_tfunc "UnmarshalText" RPointer [GFlag "GenText" true] ["[]byte"] ["error"]] []
+          [mk_tuse "UnmarshalJSON" "UnmarshalText" true [GFlag "GenJSON" true]]
+          (genum_env {| go_json := true; go_yaml := true; go_text := false; go_ci := false;
+                        go_disable_traits := false; go_parsable_some := false |}) = false
+  /\ uses_ok [mk_tfunc "UnmarshalText" RPointer [GFlag "GenText" true] ["[]byte"] ["error"]] []
+             [mk_tuse "UnmarshalJSON" "UnmarshalText" true [GFlag "GenJSON" true; GFlag "GenText" true]]
+             (genum_env {| go_json := true; go_yaml := true; go_text := false; go_ci := false;
+                           go_disable_traits := false; go_parsable_some := false |}) = true.
+Proof. vm_compute. split; reflexivity. Qed.
+
 (* when the model predicts that a genum package builds, nothing required is missing and every
    basic trait kind renders as a predeclared type *)
 Theorem C13_predict_built : forall T ks r c,
@@ -131,7 +157,7 @@ Example C13_example_signatures :
   let o := {| go_json := false; go_yaml := true; go_text := false; go_ci := false;
               go_disable_traits := false; go_parsable_some := true |} in
   length (genum_sigs hand_tables o) = 14
-  /\ In (mk_sig "ParseString" ["string"] ["<$enumTypeName>"; "error"]) (genum_sigs hand_tables o)
+  /\ In (mk_sig "ParseString" ["string"] ["<RECV>"; "error"]) (genum_sigs hand_tables o)
   /\ In (mk_sig "UnmarshalYAML" ["*yaml.Node"] ["error"]) (genum_sigs hand_tables o)
   /\ length (gerror_sigs hand_tables true) = 19 /\ length (gsort_sigs hand_tables) = 3
   /\ fst (extract_ref "farm/p" hand_render (TyNamed (Some ("time", "time")) "Duration" [])
@@ -166,6 +192,7 @@ Print Assumptions C13_imports_active_all.
 Print Assumptions C13_fallback_flagged.
 Print Assumptions C13_fallback_violation.
 Print Assumptions C13_predict_built.
+Print Assumptions C13_uses_declared_any_table.
 Print Assumptions C13_methods_genum_orig_refuted.
 Print Assumptions C13_basic_kinds_orig_refuted.
 Print Assumptions C13_methods_genum_orig_yaml_on.
